@@ -33,7 +33,7 @@ MAPPINGS = {
                                                                      # exactly; a float with 16 digits
     'quoting': {0: 'see "fig 2"', 1: 'a,b', 3: "it's"},      # strings the table writer has to quote
 }
-FIELDS = ['group', 'q']
+FIELDS = ['group', 'inf']       # 'inf': a field whose file name (cluster_inf.tsv) is contained in 'cluster_info'
 
 FOREIGN_NAMES = {'cluster_metrics.tsv': ('m', '\t'), 'extra.csv': ('e', ','), 'error.tsv': ('r', '\t'),
                  'cluster_info.tsv': ('i', '\t'),
